@@ -41,7 +41,16 @@ SPEC = {
              "(fromFiber or Tensor() + setRoot), of the uncompressed nests and 30% of the empty tensors carry no declared "
              "shape either, with C/U drawn freely per rank.  The oracle always walks the raw tree as it is when the "
              "Format is built and uses the declared shape or, when none was declared, the shape the raw tree itself "
-             "defines per rank (largest coordinate stored in any fiber of the rank + 1; the list lengths of a nest).  Per case: "
+             "defines per rank (largest coordinate stored in any fiber of the rank + 1; the list lengths of a nest); (vii) "
+             "LATER USES of a model: every grid tree (declared 3x3, fromFiber / setRoot) x CU/UC/UU x one in-place update "
+             "after the first round of queries (Tensor.getPayloadRef(point) <<= v at 6 points: growing an existing row, a "
+             "new row, an explicit default; Tensor.setRoot on the SAME tensor with a new free root that re-uses the "
+             "tensor's own row fibers: all / swapped / dropped / moved / plus a new free row / empty), 30% of the random "
+             "declared-shape cases with 1-3 such updates; then the SAME Format object and a fresh Format are asked again "
+             "(getRank of every rank, getTensor, getFiber(), getSubTree()) against the raw tree as it is now; for the "
+             "three fixed tensors every subset of omitted rank entries x each rank, and 15% of the random cases: the "
+             "specification the first Format filled in is taken back, 1-4 fields of ONE rank's entry are set, and it is "
+             "given to a second Format (all getters of every rank + the sums; every other entry must be unchanged).  Per case: "
              "getRoot, getTensor, getRank of every rank (before and after the other queries), getFiber and getSubTree at "
              "every stored proper prefix and at absent prefixes, all spec getters.  Non-trivial = the tree stores at "
              "least one element and at least one rank contributes a positive number of bits; distinct = distinct case."),
@@ -56,7 +65,10 @@ SPEC = {
                              "populate_left_early_cases": 800, "populate_loops_left_at_new_empty_subfiber": 250,
                              "populate_loops_left_after_element_filled": 300,
                              "undeclared_shape_cases": 4000, "undeclared_shape_history_cases": 2500,
-                             "undeclared_u_fibers_shorter_than_rank": 1000},
+                             "undeclared_u_fibers_shorter_than_rank": 1000,
+                             "update_cases": 3000, "update_set_grew_existing_fiber": 500, "update_reroots": 1500,
+                             "update_reroot_reused_own_subfibers": 1500, "requery_checked": 30000,
+                             "respec_cases": 800, "respec_with_omitted_other_rank": 80, "respec_fields_checked": 10000},
                    "thorough": {"evaluations": 60000, "oracle_evals": 1000000, "contract_evals": 1000000,
                                 "getFiber_checked": 100000, "getSubTree_checked": 100000, "dirty_cases": 10000,
                                 "u_absent_children": 40000, "omitted_fields": 100000,
@@ -67,7 +79,11 @@ SPEC = {
                                 "populate_loops_left_at_new_empty_subfiber": 1200,
                                 "populate_loops_left_after_element_filled": 1500,
                                 "undeclared_shape_cases": 40000, "undeclared_shape_history_cases": 15000,
-                                "undeclared_u_fibers_shorter_than_rank": 10000}},
+                                "undeclared_u_fibers_shorter_than_rank": 10000,
+                                "update_cases": 3000, "update_set_grew_existing_fiber": 500, "update_reroots": 1500,
+                                "update_reroot_reused_own_subfibers": 1500, "requery_checked": 30000,
+                                "respec_cases": 800, "respec_with_omitted_other_rank": 80,
+                                "respec_fields_checked": 10000}},
     "assumptions": [
         "occupancy of a compressed fiber = number of stored elements (len of its raw coordinate list), explicit "
         "defaults and stored empty sub-fibers included",
@@ -96,6 +112,14 @@ SPEC = {
         "built and the expected footprints are computed from the raw tree the abandoned nest left behind, whatever it "
         "is (an element created for the abandoned iteration may be kept or dropped - the statement only asks that "
         "the footprints describe exactly the fibers of that tree)",
+        "a Format describes the tensor as it is when a footprint is asked for, not as it was when the Format was built: "
+        "after an in-place update through the public interface (getPayloadRef + <<= inside the declared shape, setRoot on "
+        "the same tensor with a free root re-using its own sub-fibers) the same Format object and a fresh one must both "
+        "give the sums of the present raw tree; only tensors with a declared shape are updated; an update that raises is "
+        "not judged here",
+        "the specification dictionary a Format has filled in (Format.spec) may be taken back by the caller, adjusted in "
+        "ONE rank's entry and given to another Format: the entries of the other ranks (given or defaulted) keep the "
+        "values the statement's defaulting gave them",
         "operations performed on the tensor before the Format is built (the history) are public and read-only / "
         "value-returning; their results are discarded, one that raises is not judged here, and the expected footprints "
         "are computed from the raw tree as it is afterwards - only the library's own view of that tree (rank fiber "
@@ -203,6 +227,18 @@ def generate(rng, tier, shard, nshards, mon):
                 yield {"kind": "fmt", "build": "spec", "tree": tree, "rank_ids": rids, "shape": shape,
                        "default": 0, "tfmts": None, "spec": s, "sys": "omit-rank"}
             idx += 1
+            # ... and the specification the first Format filled in is adjusted for ONE rank and given to a second one
+            for which in range(len(rids)):
+                for fmts in ("C", "U"):
+                    if idx % nshards == shard:
+                        s = _full_spec(rids, [fmts] * len(rids), PRIMES_B)
+                        for i, r in enumerate(rids):
+                            if sub >> i & 1:
+                                del s[r]
+                        yield {"kind": "fmt", "build": "spec", "tree": tree, "rank_ids": rids, "shape": shape,
+                               "default": 0, "tfmts": None, "spec": s, "sys": "omit-rank-respec",
+                               "respec": [which, {"format": "U", "fhbits": 2, "cbits": 7, "pbits": 16}]}
+                    idx += 1
     mon.exhaustive["omitted-field-subsets-x-root-variants"] = True
     # (iv) history before the query: every grid tree x every single read-only / value-returning operation
     for tree in _grid_trees():
@@ -249,6 +285,18 @@ def generate(rng, tier, shard, nshards, mon):
                     yield case
                 idx += 1
     mon.exhaustive["depth2-grid-2x2-x-undeclared-shape"] = True
+    # (vii) the tensor is modified in place AFTER the first round of queries, then the SAME Format object and a fresh
+    # one are queried again: every grid tree (declared 3x3) x formats CU/UC/UU x every single update
+    for tree in _grid_trees():
+        for fmts in ("CU", "UC", "UU"):
+            for upd in _GRID_UPDATES:
+                for build in ("spec", "setroot"):
+                    if idx % nshards == shard:
+                        yield {"kind": "fmt", "build": build, "tree": tree, "rank_ids": ["M", "K"], "shape": [3, 3],
+                               "default": 0, "tfmts": None, "spec": _full_spec(["M", "K"], fmts, PRIMES_A),
+                               "update": [upd], "sys": "grid2-update"}
+                    idx += 1
+    mon.exhaustive["depth2-grid-2x2-x-single-update-then-requery"] = True
     nrand = (20000 if tier == "quick" else 400000) // nshards
     for _ in range(nrand):
         yield _random_case(rng, tier)
@@ -273,6 +321,17 @@ _GRID_HISTORY = [
 _GRID_ACTIVE = [
     [[[], 0, 2]], [[[], 1, 3]], [[[], 1, 2]], [[[], 2, 2]], [[[0], 0, 1], [[1], 1, 3]],
     [[[], 0, 1], [[0], 1, 2], [[1], 0, 0]],
+]
+
+
+# in-place updates of the systematic block (vii): ["set", point, value] = Tensor.getPayloadRef(*point) <<= value;
+# ["reroot", [[new coordinate, position of the element of the old root]...], with a new free sub-fiber at coordinate 2?]
+# = Tensor.setRoot(a new free root fiber whose payloads are the tensor's own stored sub-fibers) on the same tensor
+_GRID_UPDATES = [
+    ["set", [0, 0], 4], ["set", [0, 1], 4], ["set", [0, 2], 4], ["set", [1, 1], 4], ["set", [2, 2], 4],
+    ["set", [1, 0], 0], ["reroot", [[0, 0], [1, 1]], False], ["reroot", [[0, 1], [1, 0]], False],
+    ["reroot", [[0, 1]], False], ["reroot", [[2, 0]], False], ["reroot", [[1, 0], [2, 1]], False],
+    ["reroot", [[0, 1]], True], ["reroot", [], True],
 ]
 
 
@@ -370,6 +429,20 @@ def _random_case(rng, tier):
         case["active"] = {"p": rng.choice([0.3, 0.7, 1.0]), "seed": rng.randrange(1 << 30)}
     if rng.random() < 0.4:
         case["history"] = _random_history(rng, depth, extents, default)
+    if rng.random() < 0.15:
+        # the specification filled in by the first Format is adjusted for one rank and handed to a second Format
+        case["respec"] = [rng.randrange(depth), {fld: (rng.choice("CU") if fld == "format" else rng.randint(1, 64))
+                                                 for fld in rng.sample(INT_FIELDS + ["format"], rng.randint(1, 3))}]
+    if case["shape"] is not None and rng.random() < 0.3:
+        # the tensor is modified in place after the first round of queries and the same Format is asked again
+        ups = []
+        for _ in range(rng.choice([1, 1, 2, 3])):
+            if rng.random() < 0.65:
+                ups.append(["set", [rng.randrange(e) for e in case["shape"]] if min(case["shape"]) > 0 else None,
+                            rng.choice([default, 3, 4, 9])])
+            else:
+                ups.append(["reroot-random", rng.randrange(1 << 30), rng.random() < 0.3])
+        case["update"] = [u for u in ups if u[1] is not None]
     # ---- the specification
     mode = rng.choice(["random", "random", "distinct", "sparse"])
     p_omit = rng.choice([0.0, 0.0, 0.3, 0.6])
@@ -752,6 +825,48 @@ def _history_op(t, op, case):
         raise _UnknownOp(repr(op))
 
 
+def _apply_update(t, op, case, info):
+    """One in-place modification of the tensor through its public interface (between two uses of a Format)."""
+    import random
+    shape, default = case["shape"], case["default"]
+    depth = len(case["rank_ids"])
+    root = t.getRoot()
+    if op[0] == "set":
+        point = op[1]
+        # coverage: does the leaf fiber exist already and not store the coordinate (it grows, no fiber is added)?
+        f = root
+        for c in point[:-1]:
+            f = dict(zip(f.coords, f.payloads)).get(c) if isinstance(f, Fiber) else None
+        if isinstance(f, Fiber) and point[-1] not in f.coords:
+            info["grew_existing"] += 1
+        t.setMutable(True)
+        ref = t.getPayloadRef(*point)
+        ref <<= op[2]
+        return
+    old = list(zip(list(root.coords), list(root.payloads)))
+    if op[0] == "reroot":
+        pairs = [(c, old[i][1]) for c, i in op[1] if i < len(old)]
+        extra = op[2]
+        rng = random.Random(0)
+    else:
+        rng = random.Random(op[1])
+        keep = rng.sample(range(len(old)), rng.randint(0, len(old)))           # a subset, in any order
+        coords = sorted(rng.sample(range(shape[0]), min(len(keep), shape[0])))
+        pairs = [(c, old[i][1]) for c, i in zip(coords, keep)]
+        extra = op[2]
+    if extra:
+        free = [c for c in range(shape[0]) if c not in {c_ for c_, _ in pairs}]
+        if free:
+            if depth == 1:
+                new = 5
+            else:
+                new = gen.fiber_from_spec(gen.rand_tree_spec(rng, shape[1:], 0.6, 0.3, default), default=default)
+            pairs = sorted(pairs + [(free[-1], new)], key=lambda cp: cp[0])
+    info["reused_own"] += sum(1 for _, p in pairs if isinstance(p, Fiber) and p.getOwner() is not None)
+    info["reroots"] += 1
+    t.setRoot(Fiber([c for c, _ in pairs], [p for _, p in pairs], default=default if depth == 1 else 0))
+
+
 def _build(case):
     rids, d = case["rank_ids"], case["default"]
     if case["build"] == "populate":
@@ -864,9 +979,111 @@ def run_case(case, mon):
                       for f in fs if not model.has_content(f)))
     _CTX["model"], _CTX["tensor"] = model, t
     try:
-        _run_queries(case, mon, t, model, by_depth, stored)
+        fmt = _run_queries(case, mon, t, model, by_depth, stored)
     finally:
         _CTX["model"] = _CTX["tensor"] = None
+    if fmt is None:
+        return
+    reuse_fmt, reuse_raw = fmt, raw_spec
+    if case.get("respec"):
+        # ---- the filled specification is re-used: one rank's entry is adjusted, every other entry must still be what
+        # the first Format made of the original specification
+        which, changes = case["respec"]
+        raw2 = copy.deepcopy(model.spec)
+        raw2[rids[which]].update(changes)
+        model3 = Model(t, raw2, rids, shape, case["default"])
+        model3.u_tag = model.u_tag
+        mon.count("respec_cases")
+        mon.count("respec_with_omitted_other_rank", sum(1 for r in rids if r not in raw_spec and r != rids[which]))
+        ok, spec2 = _call(mon, "respec", _adjust_spec, fmt, rids[which], changes)
+        _CTX["model"], _CTX["tensor"] = model3, t
+        try:
+            ok, fmt3 = _call(mon, "Format", Format, t, spec2) if ok else (False, None)
+            if ok:
+                for i, r in enumerate(rids):
+                    who = "adjusted-rank" if i == which else "other-rank"
+                    for name, fld in (("getRHBits", "rhbits"), ("getFHBits", "fhbits"), ("getCBits", "cbits"),
+                                      ("getPBits", "pbits"), ("getFormat", "format"), ("getLayout", "layout")):
+                        ok, got = _call(mon, name, getattr(fmt3, name), r)
+                        if ok:
+                            mon.count("respec_fields_checked")
+                            mon.check(got == model3.spec[r][fld], f"spec:{name}:respecified:{who}",
+                                      f"{name}({r!r}) = {got!r} in a Format built from the specification an earlier "
+                                      f"Format filled in ({raw_spec!r}) after setting {changes!r} in entry "
+                                      f"{rids[which]!r} only; expected {model3.spec[r][fld]!r}")
+                _requery(case, mon, fmt3, model3, ":respecified")
+                reuse_fmt, reuse_raw = fmt3, raw2
+        finally:
+            _CTX["model"] = _CTX["tensor"] = None
+    if not case.get("update") or shape_src != "declared":
+        return
+    # ---- second use: the tensor is modified in place, then the same Format object and a fresh one are asked again;
+    # the oracle is rebuilt from the raw tree as it is now
+    info = {"grew_existing": 0, "reused_own": 0, "reroots": 0}
+    try:
+        for op in case["update"]:
+            _apply_update(t, op, case, info)
+    except BaseException as e:      # noqa
+        if isinstance(e, KeyboardInterrupt):
+            raise
+        mon.count("update_raised")      # the update itself is not this property's business
+        return
+    mon.count("update_cases")
+    mon.count("update_set_grew_existing_fiber", info["grew_existing"])
+    mon.count("update_reroots", info["reroots"])
+    mon.count("update_reroot_reused_own_subfibers", info["reused_own"])
+    model2 = Model(t, reuse_raw, rids, shape, case["default"])
+    _CTX["model"], _CTX["tensor"] = model2, t
+    try:
+        _requery(case, mon, reuse_fmt, model2, ":reused-after-update")
+        _CTX["model"] = model2 = Model(t, raw_spec, rids, shape, case["default"])
+        ok, fresh = _call(mon, "Format", Format, t, copy.deepcopy(raw_spec))
+        if ok:
+            _requery(case, mon, fresh, model2, ":fresh-after-update")
+    finally:
+        _CTX["model"] = _CTX["tensor"] = None
+
+
+def _adjust_spec(fmt, rank_id, changes):
+    """What a user does with the specification a Format filled in: take it, set fields of ONE rank's entry."""
+    spec = fmt.spec
+    for fld, v in changes.items():
+        spec[rank_id][fld] = v
+    return spec
+
+
+def _requery(case, mon, fmt, model, phase):
+    """getRank of every rank, getTensor, getSubTree() and getFiber() of the root against a model of the present tree."""
+    rids = case["rank_ids"]
+    by_depth = model.fibers_by_depth()
+    rank_want = [model.rank_bits(d, by_depth) for d in range(len(rids))]
+    tensor_want = model.root_bits() + sum(rank_want)
+    for d, r in enumerate(rids):
+        ok, got = _call(mon, "getRank", fmt.getRank, r)
+        if ok:
+            mon.count("requery_checked")
+            mon.check(_is_int(got) and got == rank_want[d], f"getRank:sum:{model.tag(d)}{phase}",
+                      f"getRank({r!r}) = {got!r} (later use of the model{phase}), expected rhbits + "
+                      f"sum over the {len(by_depth[d])} fibers the rank has now = {rank_want[d]} (depth {d})")
+    ok, got = _call(mon, "getTensor", fmt.getTensor)
+    if ok:
+        mon.count("requery_checked")
+        mon.check(_is_int(got) and got == tensor_want, f"getTensor:sum{model.src()}{phase}",
+                  f"getTensor() = {got!r} (later use of the model{phase}), expected root "
+                  f"{model.root_bits()} + ranks {rank_want} = {tensor_want}")
+    ok, got = _call(mon, "getFiber", fmt.getFiber)
+    if ok:
+        exp = model.fiber_bits(0, model.root)
+        mon.count("requery_checked")
+        mon.check(_is_int(got) and got == exp, f"getFiber:{model.tag(0)}{phase}",
+                  f"getFiber() = {got!r} (later use of the model{phase}), expected {exp}")
+    ok, got = _call(mon, "getSubTree", fmt.getSubTree)
+    if ok:
+        exp = model.subtree_bits(0, model.root)
+        below = "".join(model.spec[r]["format"] for r in rids)
+        mon.count("requery_checked")
+        mon.check(_is_int(got) and got == exp, f"getSubTree:{below}{phase}",
+                  f"getSubTree() = {got!r} (later use of the model{phase}), expected {exp}")
 
 
 def _run_queries(case, mon, t, model, by_depth, stored):
@@ -876,7 +1093,7 @@ def _run_queries(case, mon, t, model, by_depth, stored):
     given = copy.deepcopy(raw_spec)
     ok, fmt = _call(mon, "Format", Format, t, given)
     if not ok:
-        return
+        return None
     want = model.spec
 
     # ---- spec defaulting, read back through the getters
@@ -992,3 +1209,4 @@ def _run_queries(case, mon, t, model, by_depth, stored):
     if stored > 0 and sum(rank_want) > 0:
         mon.nontrivial()
     mon.state(("fp", "".join(want[r]["format"] for r in rids), tensor_want, rank_want, sub_root))
+    return fmt
